@@ -340,6 +340,36 @@ def run(ctx):
             t.case(key=str(ops))
             if not normal_form_ok(real, cl, False, t, operations=ops):
                 break
+    if not t.fail:
+        # sizes no small example reaches: a changelog of 700 blocks (one with 20 distributions, one with 600 change lines), a junk
+        # line every 40 lines, in every input form: lenient parsing is total, agrees across the forms and its output is a normal form
+        import io
+        from vf.changelog_gen import large_changelog
+        text, comps = large_changelog()
+        ls = text.split("\n")
+        for k in range(40, len(ls), 40):
+            ls.insert(k, "junk line %d" % k)
+        for label, txt in (("well-formed", text), ("with junk lines", "\n".join(ls))):
+            try:
+                with warnings.catch_warnings():
+                    warnings.simplefilter("ignore")
+                    cl = real.Changelog(txt)
+                    others = {"bytes": real.Changelog(txt.encode("utf-8")), "text file object": real.Changelog(io.StringIO(txt)),
+                              "binary file object": real.Changelog(io.BytesIO(txt.encode("utf-8"))), "lines": real.Changelog(txt.splitlines(True))}
+                t.case(key=("large", label))
+                if label == "well-formed" and len(blocks_of(cl)) != len(comps):
+                    t.failed("a large well-formed changelog parses to %d blocks, %d were written" % (len(blocks_of(cl)), len(comps)))
+                    break
+                wrong = [k for k, o in others.items() if blocks_of(o) != blocks_of(cl)]
+                if wrong:
+                    t.failed("a large changelog parses to other blocks when given as %s" % wrong[0], text_kind=label, size=len(txt),
+                             blocks_from_str=len(blocks_of(cl)), blocks_from_that_form=len(blocks_of(others[wrong[0]])))
+                    break
+                if not normal_form_ok(real, cl, False, t, text="(generated: large changelog, %s, %d characters)" % (label, len(txt))):
+                    break
+            except Exception as e:
+                t.failed("parsing a large changelog raised %r" % (e,), text_kind=label)
+                break
     t.done()
     ctx.level = "other"
     ctx.explanation = ("PROVED: (1) on the AST of the real parse_changelog, the parameter `strict` occurs only as the second argument of "
